@@ -518,6 +518,11 @@ impl<'a> MarkLookupBuilder<'a> {
         // first do a pass to build up the ligature anchors and track the set
         // of mark classes used
         for (gid, anchors) in &self.anchor_lists {
+            // skip mark glyphs, as ufo2ft does; otherwise a mark that happens to
+            // have a numbered anchor ends up as a ligature in GDEF.
+            if self.mark_glyphs.contains(gid) {
+                continue;
+            }
             // skip anything that is definitely not a ligature glyph
             let might_be_liga = self.gdef_classes.is_empty()
                 || (self.gdef_classes.get(gid) == Some(&GlyphClassDef::Ligature));
@@ -1860,6 +1865,44 @@ mod tests {
                 f_l (lig) [<NULL>, @(x: 602, y: 502)]
                   @(x: 150, y: 250) acutecomb
                 "#
+        );
+    }
+
+    // a mark glyph is never the ligature of a mark-to-ligature lookup, even
+    // if it has a numbered anchor; in particular it stays a mark in GDEF.
+    #[test]
+    fn mark_glyph_with_ligature_anchor_is_not_a_ligature() {
+        let mut input = MarksInput::default();
+        input
+            .add_glyph("a", None, |anchors| {
+                anchors.add("top", [(300, 700)]);
+            })
+            .add_glyph("acutecomb", None, |anchors| {
+                anchors
+                    .add("_top", [(100, 500)])
+                    .add("bottom_1", [(100, 0)]);
+            })
+            .add_glyph("dotbelowcomb", None, |anchors| {
+                anchors.add("_bottom", [(90, -10)]);
+            });
+
+        let gdef = input.compile().gdef.unwrap();
+        let classes = gdef.glyph_class_def.as_ref().unwrap();
+        let acutecomb = GlyphId16::new(1);
+        assert_eq!(
+            classes.iter().find(|(gid, _)| *gid == acutecomb),
+            Some((acutecomb, GlyphClassDef::Mark as u16))
+        );
+
+        assert_eq_ignoring_ws!(
+            input.get_normalized_output(),
+            r#"
+            # mark: DFLT/dflt
+            # 1 MarkToBase rules
+            # lookupflag LookupFlag(0)
+            a @(x: 300, y: 700)
+              @(x: 100, y: 500) acutecomb
+            "#
         );
     }
 
